@@ -145,9 +145,15 @@ def gen_language(rng: random.Random) -> L:
     for _ in range(rng.randint(1, 3)):
         nf = rng.choice([1, 2, 2, 3])
         fps = []
+        firsts = [m for m in meta.values() if m["kind"] == "m" and m["params"]]
         for _ in range(nf):
-            far = rng.choice([1, 1, 2])
-            fps.append(("fn", [rb() for _ in range(far)], rb()))
+            if firsts and rng.random() < 0.75:
+                # a parameter some declared operator can be passed for
+                m = rng.choice(firsts)
+                fps.append(("fn", list(m["params"]), m["res"]))
+            else:
+                far = rng.choice([1, 1, 2])
+                fps.append(("fn", [rb() for _ in range(far)], rb()))
         ds = [rb() for _ in range(rng.choice([0, 1, 1, 2]))]
         ps = fps + ds
         if rng.random() < 0.4:
@@ -156,6 +162,11 @@ def gen_language(rng: random.Random) -> L:
         add("h", ttext(("fn", ps, res)), doc=doc(), params=ps, res=res)
     # one that surely accepts an endomorphism
     r0 = rng.choice(roots)
+    if rng.random() < 0.6:
+        # a function-typed parameter that comes late: its internal node must receive all
+        # the earlier inputs (graph.py:376, 395-397)
+        add("h", f"{r0} ** {r0} ** {r0} ** ({r0} ** {r0}) ** {r0}",
+            params=[r0, r0, r0, ("fn", [r0], r0)], res=r0)
     hname = add("h", f"({r0} ** {r0}) ** {r0} ** {r0}", params=[("fn", [r0], r0), r0], res=r0)
     # composite operators (abstractions after .primitive())
     e0 = endo[r0]
@@ -217,18 +228,30 @@ def gen_flags(rng: random.Random, vocab: bool) -> dict:
 # type-directed expressions (mostly well-typed)
 
 class ExprGen:
-    def __init__(self, rng, lang: L, leaves):
-        """leaves: list of (text, type) usable as data (numbered inputs)"""
+    def __init__(self, rng, lang: L, leaves, holes=None):
+        """leaves: list of (text, type) usable as data (numbered inputs);
+        holes: if a list, new numbered inputs are invented where data is needed and their
+        required types are appended to it (workflow tools are generated output-first)"""
         self.rng, self.lang, self.leaves = rng, lang, leaves
         self.used = set()
+        self.holes = holes
 
     def data(self, want, depth):
         """an expression whose type is a subtype of `want`"""
         rng, lang = self.rng, self.lang
         fits = [(txt, t) for txt, t in self.leaves if t is None or lang.sub(t, want)]
-        if depth <= 0 or rng.random() < 0.2:
+        fresh = [f for f in fits if f[0] not in self.used]
+        if self.holes is not None and (depth <= 0 or rng.random() < 0.3):
+            same = [i + 1 for i, t in enumerate(self.holes) if t == want]
+            if same and rng.random() < 0.3:
+                return str(rng.choice(same))             # the same input once more
+            if len(self.holes) < 4 and rng.random() < 0.85:
+                self.holes.append(want)
+                return str(len(self.holes))
+            return self.leaf(want)
+        if depth <= 0 or rng.random() < (0.6 if fresh else 0.2):
             if fits and rng.random() < 0.8:
-                txt, _ = rng.choice(fits)
+                txt, _ = rng.choice(fresh or fits)      # inputs not mentioned yet first
                 self.used.add(txt)
                 return txt
             return self.leaf(want)
@@ -341,6 +364,22 @@ def strip(s: str) -> str:
     return s
 
 
+def mutilate(rng, lang: L, text: str) -> str:
+    """the malformed stream: swap one operator for another, drop a parenthesis or add a
+    dangling annotation (the outcome, usually an exception, must be the same everywhere)"""
+    import re
+    r = rng.random()
+    names = list(lang.meta)
+    toks = [m for m in re.finditer(r"(?<![\w.])[a-z]\d+(?![\w])", text)]
+    if r < 0.7 and toks:
+        m = rng.choice(toks)
+        return text[:m.start()] + rng.choice(names) + text[m.end():]
+    if r < 0.85 and ")" in text:
+        k = text.rindex(")")
+        return text[:k] + text[k + 1:]
+    return text + " : " + rng.choice(lang.names)
+
+
 def rand_type(rng, lang: L):
     r = rng.random()
     if lang.has_f and r < 0.15:
@@ -366,68 +405,86 @@ def gen_expr_case(rng, lang: L) -> dict:
         for txt in g.used:
             if ":" in txt:
                 annotated.add(txt[1:].split(" ")[0])
+        if rng.random() < 0.06:
+            text = mutilate(rng, lang, text)
         exprs.append(text)
     return {"kind": "expr", "n_inputs": k, "exprs": exprs, "primitive": rng.random() < 0.8,
             "flags": gen_flags(rng, False)}
 
 
 def gen_workflow_case(rng, lang: L) -> dict:
+    """Generated output-first: the final tool's expression invents the inputs it needs
+    (with the types it needs them at); each input is fed by a source - possibly one that
+    another tool uses as well - or by a further tool generated the same way."""
     import re
-    for _ in range(60):
-        nsrc = rng.randint(1, 3)
-        ntools = rng.randint(1, 5)
-        res = [(f"s{i}", rand_type(rng, lang) if rng.random() < 0.8 else None) for i in range(nsrc)]
-        annotated = set()
+    numre = r"(?<![\w.])(\d+)(?![\w])"
+    for _ in range(40):
+        budget = [rng.choice([0, 1, 2, 2, 3, 4, 5])]
         tools = []
-        unused = []
-        ok = True
-        for t in range(ntools):
-            kk = rng.randint(1, 3)
+        sources = {}            # name -> declared type | None
+
+        def source_for(t):
+            fitting = [n for n, st in sources.items() if st is not None and lang.sub(st, t)]
+            if fitting and rng.random() < 0.7:
+                return rng.choice(fitting)               # shared between tools
+            name = f"s{len(sources)}"
+            if isinstance(t, tuple):
+                sources[name] = t
+            else:
+                sources[name] = rng.choice(lang.below(t))
+            return name
+
+        def make_tool(want, level):
+            idx = len(tools)
+            name = f"t{idx}"
+            tools.append(None)
+            for _try in range(8):
+                holes = []
+                g = ExprGen(rng, lang, [], holes)
+                text = strip(g.data(want, rng.randint(1, 3)))
+                if holes and not re.fullmatch(r"\(?\d+( : .+)?\)?", text):
+                    break
+            else:
+                return None
             inputs = []
-            for j in range(kk):
-                if unused and (rng.random() < 0.6 or t == ntools - 1):
-                    x = unused.pop(rng.randrange(len(unused)))
-                elif rng.random() < 0.5:
-                    x = rng.choice(res[:nsrc])          # a source (sources get shared between tools)
+            for k, ht in enumerate(holes):
+                if budget[0] > 0 and level < 4 and rng.random() < 0.6:
+                    budget[0] -= 1
+                    sub = make_tool(ht, level + 1)
+                    if sub is None:
+                        return None
+                    inputs.append(sub)
                 else:
-                    x = rng.choice(res)
-                inputs.append(x)
-            leaves = []
-            for j, (rname, rtype) in enumerate(inputs):
-                num = str(j + 1)
-                if rname.startswith("s") and rtype is not None and (rname not in annotated or rng.random() < 0.3):
-                    leaves.append((f"({num} : {ttext(rtype)})", rtype))
-                else:
-                    leaves.append((num, rtype))
-            g = ExprGen(rng, lang, leaves)
-            want = rand_type(rng, lang)
-            text = strip(g.data(want, rng.randint(1, 3)))
-            nums = {int(x) for x in re.findall(r"(?<![\w.])(\d+)(?![\w])", text)}
-            # every declared input is used (pad with a binary operator when needed)
-            missing = [j + 1 for j in range(kk) if (j + 1) not in nums]
-            if missing or re.fullmatch(r"\(?\d+( : [^()]*)?\)?", text):
-                ok = False
-                break
-            for txt in g.used:
-                if ":" in txt:
-                    annotated.add(inputs[int(txt[1:].split(" ")[0]) - 1][0])
-            name = f"t{t}"
-            tools.append([name, text, [r for r, _ in inputs]])
-            unused = [u for u in unused if u not in inputs]
-            out = (name, want)
-            res.append(out)
-            unused.append(out)
-        if not ok or len(unused) != 1:
+                    src = source_for(ht)
+                    inputs.append(src)
+                    # only explicit annotations type a source; some uses stay bare
+                    if rng.random() < 0.7:
+                        ann = f"({k + 1} : {ttext(sources[src])})"
+                        text = re.sub(r"(?<![\w.])%d(?![\w])" % (k + 1), lambda m: ann, text, count=1)
+            tools[idx] = [name, text, inputs]
+            return name
+
+        if make_tool(rand_type(rng, lang), 0) is None or any(t is None for t in tools):
             continue
         used_src = sorted({x for _, _, ins in tools for x in ins if x.startswith("s")})
         if not used_src:
             continue
         flags = gen_flags(rng, False)
         extra = []
-        if flags.get("with_inputs", not flags.get("minimal", False)):
+        if flags.get("with_inputs", not flags.get("minimal", False)) and rng.random() < 0.15:
             # (a declared source that no tool uses only gets a node when with_inputs is on)
-            extra = [f"s{i}" for i in range(nsrc) if f"s{i}" not in used_src and rng.random() < 0.3]
-        return {"kind": "workflow", "sources": used_src + extra, "tools": tools,
+            extra = [f"s{len(sources)}"]
+        if rng.random() < 0.06:
+            k = rng.randrange(len(tools))
+            tools[k] = [tools[k][0], mutilate(rng, lang, tools[k][1]), tools[k][2]]
+        if rng.random() < 0.05:
+            # malformed: a second final application (Workflow.target must refuse, whichever
+            # of the two its set iteration meets first)
+            leaf = rng.choice([t for t in tools if all(i.startswith("s") for i in t[2])] or tools)
+            tools.append([f"t{len(tools)}", leaf[1], list(leaf[2])])
+        order = list(range(len(tools)))
+        rng.shuffle(order)                               # the dict's own order is arbitrary too
+        return {"kind": "workflow", "sources": used_src + extra, "tools": [tools[i] for i in order],
                 "passthrough": rng.random() < 0.6, "with_vocab": False, "flags": flags}
     return None
 
@@ -447,6 +504,7 @@ def fixed_languages():
                 ["g", "A ** A ** A", None, None],
                 ["h", "(A ** A) ** A ** A", None, None],
                 ["m", "(A ** A) ** (A ** A) ** A ** A", None, None],
+                ["late", "A ** A ** A ** (A ** A) ** A", None, None],
                 ["fc", "C ** A", None, None],
                 ["fd", "D ** A", None, None],
                 ["idx", "lambda x: (x ** x)[x <= A]", None, None],
@@ -460,6 +518,7 @@ def fixed_languages():
     meta = {"f": dict(kind="m", params=["A"], res="A"), "g": dict(kind="m", params=["A", "A"], res="A"),
             "h": dict(kind="h", params=[("fn", ["A"], "A"), "A"], res="A"),
             "m": dict(kind="h", params=[("fn", ["A"], "A"), ("fn", ["A"], "A"), "A"], res="A"),
+            "late": dict(kind="h", params=["A", "A", "A", ("fn", ["A"], "A")], res="A"),
             "fc": dict(kind="m", params=["C"], res="A"), "fd": dict(kind="m", params=["D"], res="A"),
             "idx": dict(kind="i", params=["x"], res="x", bound="A"),
             "two": dict(kind="e", params=None, res=None), "three": dict(kind="e", params=None, res=None),
@@ -477,6 +536,8 @@ def fixed_languages():
         {"kind": "expr", "n_inputs": 1, "exprs": ["m f (g 1) (idx (1: B))", "g 1 (cmp 1)"], "primitive": True, "flags": full},
         {"kind": "expr", "n_inputs": 2, "exprs": ["two 1 2", "three 1 2", "idx -", "wild (1: B)"], "primitive": True, "flags": mini},
         {"kind": "expr", "n_inputs": 1, "exprs": ["g (f 1) (g (f 1) (-: A))"], "primitive": True, "flags": mini},
+        {"kind": "expr", "n_inputs": 2, "exprs": ["late 1 (f 2) (- : A) f", "late (g 1 2) 1 (f 1) (h (late 1 2 1 f))"],
+         "primitive": True, "flags": mini},
         {"kind": "workflow", "sources": ["s0", "s1"], "passthrough": True, "with_vocab": False, "flags": full,
          "tools": [["t0", "f (1: A)", ["s0"]], ["t1", "g 1 (f 2)", ["t0", "s1"]], ["t2", "g 1 2", ["t1", "t0"]]]},
         {"kind": "workflow", "sources": ["s0", "s1"], "passthrough": False, "with_vocab": False, "flags": full,
